@@ -12,12 +12,14 @@ for a in sys.argv[1:]:
 TECH = {
  'cluster': "explicit-state model checking of the implementation: parallel depth-first search over canonical 128-bit state keys of a world of real RawNode<SimStorage> objects, every transition executes the real code, monitors on every API call / message release / state",
  'component': "explicit-state model checking of the implementation: joint breadth-first search over (real component, reference model) pairs under every operation of a small alphabet until fixpoint",
+ 'enumeration+cluster': "exhaustive enumeration of a finite input space of the real functions against the definitional oracle (stateless degenerate case of explicit-state search), plus explicit-state model checking of the implementation on cluster worlds (parallel depth-first search over canonical state keys of real RawNode<SimStorage> objects, monitors after every call)",
+ 'component+cluster': "explicit-state model checking of the implementation: joint breadth-first search over (real component, reference model) pairs under every operation of a small alphabet until fixpoint, plus parallel depth-first search over canonical state keys of cluster worlds of real RawNode<SimStorage> objects with monitors after every call",
  'enumeration': "exhaustive enumeration of a finite input space of the real functions against the definitional oracle (stateless degenerate case of explicit-state search)",
 }
-KIND = {'C11':'enumeration','C12':'component','C14':'component','C18':'component','C19':'component'}
+KIND = {'C11':'enumeration+cluster','C12':'component+cluster','C14':'component','C18':'component','C19':'component'}
 TEXT = {
  'C01':"every reachable state of bounded FIG8 / SNAP / MEMBER / CRASH worlds (all interleavings of ticks, deliveries, drops, duplicates, proposals, crashes within the listed caps) satisfies the committed-log registry",
- 'C02':"every reachable state of bounded ELECT (pre_vote x check_quorum, stale logs), STALE, MEMBER, CRASH, XFER worlds has at most one leader per term",
+ 'C02':"every reachable state of bounded ELECT (pre_vote x check_quorum, stale logs), STALE, MEMBER, LAG2 (two successive voter additions), CRASH, XFER worlds has at most one leader per term (one recorded finding)",
  'C03':"every leader state and every generated (pre-)vote grant in bounded FIG8 / ELECT / XFER worlds satisfies completeness and the up-to-date rule",
  'C04':"every commit-index advance in bounded REPL / CRASH (sync, async strict and loose order) / MEMBER(joint) / FIG8 worlds is backed by durable copies on a quorum of each half",
  'C05':"log matching, leader append-only and committed-prefix immutability hold after every API call in bounded FIG8 / REPL (batching, size limits, divergent tails) / CRASH worlds",
@@ -26,8 +28,8 @@ TEXT = {
  'C08':"every ReadState in bounded READ worlds (stale leaders, duplicated/dropped heartbeats, quorum-shrinking conf change) carries an index >= the highest commit index at issue time and returns at the issuer",
  'C09':"every conf-change proposal (single and batched), election start and applied membership entry in bounded MEMBER worlds satisfies the filter relation and the reference configuration fold",
  'C10':"bounded convergence: from every distinct state of reduced FIG8 / SNAP / FLOW / MEMBER / XFER / STALE prefix spaces the deterministic fault-free suffix converges under at least one of three election-timeout schedulers",
- 'C11':"complete enumeration of majority and joint configurations (0-9 voters), acked-index vectors, vote maps and group assignments",
- 'C12':"every configuration over a small id universe and every change list through simple / enter_joint / leave_joint / restore",
+ 'C11':"complete enumeration of majority and joint configurations (0-9 voters), acked-index vectors, vote maps and group assignments; plus bounded cluster worlds (group commit on; elections; joint membership) in which every leader commit is durable in two groups when every voter has one and every election win is backed by released vote grants of a majority of each voter set",
+ 'C12':"every configuration over a small id universe and every change list through simple / enter_joint / leave_joint / restore; plus bounded MEMBER / SNAP cluster worlds in which every node's tracker holds progress for exactly the members of its configuration after every call",
  'C13':"every generated MsgAppend / MsgHeartbeat and every proposal in bounded FLOW / REPL worlds satisfies the window model, well-formedness and the uncommitted-bytes ghost",
  'C14':"every operation history of RaftLog/Unstable within value bounds agrees with a plain sequence model on every observer",
  'C15':"every MsgSnapshot delivery, status report and snapshot send in bounded SNAP worlds satisfies the install / ignore / fast-forward post-conditions",
